@@ -247,7 +247,8 @@ class Representation(ObjectWithFields):
             # of the last fragment and dividing by number of media fragments (minus one)
             # provides the best estimate of fragment duration.
             # Note: len(rv.segments) also includes the init segment, hence the need for -2
-            seg_dur = segment_start_time // (len(rv.segments) - 2)
+            # (the first fragment of a file does not have to start at zero)
+            seg_dur = (segment_start_time - rv.start_time) // (len(rv.segments) - 2)
             rv.mediaDuration = 0
             for seg in rv.segments[1:]:
                 rv.mediaDuration += seg.duration
@@ -424,7 +425,9 @@ class Representation(ObjectWithFields):
                 timeline_start, seg_start_time, origin_time, mod_segment, drift)
         else:
             timeline_start = 0
-            seg_start_time = 0
+            # the segments of a static presentation are served with the
+            # decode times they are stored with
+            seg_start_time = self.start_time
             origin_time = 0
             mod_segment = 1
             drift = 0
@@ -502,7 +505,8 @@ class Representation(ObjectWithFields):
         timing = self._timing
         if timing.mode != 'live':
             if segment_num is None:
-                st = segment_time + (self.segment_duration >> 2)
+                # (a static timeline starts at the first decode time of the file)
+                st = segment_time - self.start_time + (self.segment_duration >> 2)
                 segment_num = int(st // self.segment_duration) + self.start_number
             mod_segment = 1 + segment_num - self.start_number
             return SegmentNumberAndTime(segment_num, mod_segment, 0)
